@@ -51,7 +51,7 @@ GATES = {"quick": ["q_cp", "r_cfh", "r_flt", "r_blk", "cp_wait", "u_cfh", "retry
 
 TIERS = {
     # runs per core scenario without / with environment events, sampled scenarios, steps per run
-    "quick": dict(maxh=5, plain=1, eventful=6, sampled=6, steps=60, reorgs=2, extends=1, workers=4, worlds=1),
+    "quick": dict(maxh=5, plain=1, eventful=6, sampled=3, steps=60, reorgs=2, extends=1, workers=4, worlds=1),
     "thorough": dict(maxh=7, plain=2, eventful=14, sampled=30, steps=120, reorgs=3, extends=2, workers=4, worlds=2),
 }
 
